@@ -9,7 +9,8 @@
     `ts ≥ last_seen > l.ts + upper`);
   * no right element with `l.ts - lower ≤ r.ts` has been evicted: evictions (`pop_front` while
     `right_ts < lower`, interval_join.rs:104-110) were done for earlier left elements, whose `lower` is not
-    larger (`lowerOf · lb` monotone on the left timestamps — this is where saturation must be excluded);
+    larger (`lowerOf · lb = saturating_sub` is monotone in the timestamp, `lowerMono_all`; with the old
+    `checked_sub(..).unwrap_or(MIN)` it was not, which is why the lemmas are stated for a `LowerMono` hypothesis);
   * the per-key deque is sorted by timestamp, so `pop_front while <` / `take_while ≤` are filters.
   So the tuples generated for `l` are exactly `R.filter (P l)` over ALL right elements `R` of the iteration,
   in arrival order — the output is even *equal* (not only `Perm`) to `spec lb ub L R`.
@@ -288,7 +289,7 @@ def fin (lb ub : Int) (s : State κ α β) : State κ α β × List (Elem (κ ×
   let a := advance lb ub s.lastSeen s.receivedRestart s.left s.right
   let r := if a.1.isEmpty && s.receivedRestart then [] else a.2.1
   let outs := a.2.2.map fun o => Elem.ts o.2 o.1
-  if s.receivedRestart then (⟨a.1, r, 0, false⟩, outs ++ [.far]) else (⟨a.1, r, s.lastSeen, false⟩, outs)
+  if s.receivedRestart then (⟨a.1, r, TS_MIN, false⟩, outs ++ [.far]) else (⟨a.1, r, s.lastSeen, false⟩, outs)
 
 theorem step_left (lb ub : Int) (s : State κ α β) (k : κ) (v : α) (t : Int) :
     step lb ub s (.ts (k, .inl v) t) = fin lb ub { s with lastSeen := t, left := s.left ++ [(t, k, v)] } := rfl
@@ -589,7 +590,7 @@ theorem run_body {V : Int → Prop} {lb ub : Int} (hmono : LowerMono V lb) :
     operator is in its initial state again. -/
 theorem run_iteration {V : Int → Prop} {lb ub : Int} (hmono : LowerMono V lb)
     (es : List (Elem (κ × (α ⊕ β)))) (hb : ∀ e ∈ es, isBody e = true)
-    (hs : ((0 : Int) :: stamps es).Pairwise (· ≤ ·)) (hV : ∀ l ∈ lefts es, V l.1) :
+    (hs : (TS_MIN :: stamps es).Pairwise (· ≤ ·)) (hV : ∀ l ∈ lefts es, V l.1) :
     ∃ outs : List (Elem (κ × α × β)),
       run lb ub State.init (es ++ [.far]) = (State.init, outs ++ [.far])
         ∧ pairs outs = spec lb ub (lefts es) (rights es)
@@ -623,23 +624,52 @@ def specZ (lb ub : Int) (L : List (Int × κ × α)) (R : List (κ × Int × β)
     (R.filter fun r => decide (r.1 = l.2.1) && decide (l.1 - lb ≤ r.2.1) && decide (r.2.1 ≤ l.1 + ub)).map
       fun r => (max r.2.1 l.1, l.2.1, l.2.2, r.2.2)
 
-/-- `checked_sub` does not fail: `0 ≤ ts`, `lb ≤ i64::MAX`, `ts - lb ≤ i64::MAX` (automatic for `0 ≤ lb`) -/
-theorem lowerOf_eq (t lb : Int) (h1 : 0 ≤ t) (h2 : lb ≤ TS_MAX) (h3 : t - lb ≤ TS_MAX) :
-    lowerOf t lb = t - lb := by
-  have : TS_MIN ≤ t - lb ∧ t - lb ≤ TS_MAX := by simp only [TS_MIN, TS_MAX] at *; omega
-  simp [lowerOf, this]
+theorem clamp_cases (x : Int) :
+    (x < -9223372036854775808 ∧ clamp x = -9223372036854775808)
+      ∨ (9223372036854775807 < x ∧ clamp x = 9223372036854775807)
+      ∨ (-9223372036854775808 ≤ x ∧ x ≤ 9223372036854775807 ∧ clamp x = x) := by
+  unfold clamp
+  simp only [TS_MIN, TS_MAX]
+  by_cases h1 : x < -9223372036854775808
+  · left; simp [h1]
+  · by_cases h2 : 9223372036854775807 < x
+    · right; left; simp [h1, h2]
+    · right; right; simp [h1, h2]; omega
 
-/-- a saturated `checked_add` is harmless: every timestamp is `≤ i64::MAX` anyway -/
-theorem le_upperOf_iff (t ub r : Int) (h1 : 0 ≤ t) (h2 : TS_MIN ≤ ub) (h3 : r ≤ TS_MAX) :
-    r ≤ upperOf t ub ↔ r ≤ t + ub := by
-  unfold upperOf
-  simp only
-  split
-  · exact Iff.rfl
-  · simp only [TS_MIN, TS_MAX] at *; omega
+theorem clamp_mono {a b : Int} (h : a ≤ b) : clamp a ≤ clamp b := by
+  have ha := clamp_cases a
+  have hb := clamp_cases b
+  omega
 
-theorem spec_eq_specZ (lb ub : Int) (hlb : lb ≤ TS_MAX) (hub : TS_MIN ≤ ub) (L : List (Int × κ × α))
-    (R : List (κ × Int × β)) (hL : ∀ l ∈ L, 0 ≤ l.1 ∧ l.1 - lb ≤ TS_MAX) (hR : ∀ r ∈ R, r.2.1 ≤ TS_MAX) :
+theorem clamp_range (x : Int) : TS_MIN ≤ clamp x ∧ clamp x ≤ TS_MAX := by
+  have hx := clamp_cases x
+  simp only [TS_MIN, TS_MAX]
+  omega
+
+/-- `saturating_sub` is monotone in the timestamp for EVERY bound: the eviction of interval_join.rs:104-110
+    is justified without any side condition -/
+theorem lowerMono_all (lb : Int) : LowerMono (fun _ => True) lb := by
+  intro t t' _ _ hle
+  exact clamp_mono (by omega)
+
+/-- a lower bound saturated DOWNWARDS (or not at all) means the same as the unsaturated one for i64
+    timestamps; only an upward saturation (`x > i64::MAX`) differs, and only for `r = i64::MAX` -/
+theorem clamp_le_iff (x r : Int) (hx : x ≤ TS_MAX) (hr : TS_MIN ≤ r) : clamp x ≤ r ↔ x ≤ r := by
+  have h := clamp_cases x
+  simp only [TS_MIN, TS_MAX] at *
+  omega
+
+/-- dually for the upper bound: only a downward saturation (`x < i64::MIN`) differs, for `r = i64::MIN` -/
+theorem le_clamp_iff (x r : Int) (hx : TS_MIN ≤ x) (hr : r ≤ TS_MAX) : r ≤ clamp x ↔ r ≤ x := by
+  have h := clamp_cases x
+  simp only [TS_MIN, TS_MAX] at *
+  omega
+
+/-- The saturated specification is the one over ℤ whenever `l.ts - lb` does not exceed `i64::MAX` and
+    `l.ts + ub` does not fall below `i64::MIN` (overflows in the other two directions are harmless). -/
+theorem spec_eq_specZ (lb ub : Int) (L : List (Int × κ × α))
+    (R : List (κ × Int × β)) (hL : ∀ l ∈ L, l.1 - lb ≤ TS_MAX ∧ TS_MIN ≤ l.1 + ub)
+    (hR : ∀ r ∈ R, TS_MIN ≤ r.2.1 ∧ r.2.1 ≤ TS_MAX) :
     spec lb ub L R = specZ lb ub L R := by
   induction L with
   | nil => rfl
@@ -650,18 +680,11 @@ theorem spec_eq_specZ (lb ub : Int) (hlb : lb ≤ TS_MAX) (hub : TS_MIN ≤ ub) 
     congr 2
     apply List.filter_congr
     intro r hr
-    rw [lowerOf_eq l.1 lb hl.1 hlb hl.2]
-    have := le_upperOf_iff l.1 ub r.2.1 hl.1 hub (hR r hr)
-    by_cases h : r.2.1 ≤ l.1 + ub
-    · simp [h, this.mpr h]
-    · have h' : ¬ r.2.1 ≤ upperOf l.1 ub := fun h' => h (this.mp h')
-      simp [h, h']
-
-theorem lowerMono_of_nosat (lb : Int) (hlb : lb ≤ TS_MAX) :
-    LowerMono (fun t => 0 ≤ t ∧ t - lb ≤ TS_MAX) lb := by
-  intro t t' ht ht' hle
-  rw [lowerOf_eq t lb ht.1 hlb ht.2, lowerOf_eq t' lb ht'.1 hlb ht'.2]
-  omega
+    have h1 := clamp_le_iff (l.1 - lb) r.2.1 hl.1 (hR r hr).1
+    have h2 := le_clamp_iff (l.1 + ub) r.2.1 hl.2 (hR r hr).2
+    simp only [lowerOf, upperOf]
+    by_cases ha : l.1 - lb ≤ r.2.1 <;> by_cases hb : r.2.1 ≤ l.1 + ub <;>
+      simp [ha, hb, h1, h2]
 
 omit [DecidableEq κ] in
 theorem mem_lefts_stamps (es : List (Elem (κ × (α ⊕ β)))) (l : Int × κ × α) (h : l ∈ lefts es) :
